@@ -576,6 +576,12 @@ Fixpoint apply_hook (ps : list plugin) (h : hook) (o : obj) : option (list plugi
       end
   end.
 
+(* plugins/explorer.py get_plugins_types: an entry of the `plugins` option is a class path or a module path; a
+   module stands for the plugin classes it exposes (inspect.getmembers order, given); the list keeps entry order *)
+Inductive entry := EClass (p : plugin) | EModule (ps : list plugin).
+Definition resolve_entries (es : list entry) : list plugin :=
+  flat_map (fun e => match e with EClass p => [p] | EModule ps => ps end) es.
+
 (* ------------------------------------------------------------------ the order of hook calls (package.py) *)
 Record uop := { uo_name : string; uo_kind : opkind; uo_str : string;
                 uo_classes : list pclass; uo_imports : list imp; uo_method : pmethod }.
